@@ -62,7 +62,9 @@ def run(pid, tier):
     docs = [("", t) for t, _rec in docspace.model_docs(ctx, tier)]
     docs += docspace.other_docs(tier, seed())
     # every document also without its final newline (quick: a slice)
-    extra = [(n, t[:-1]) for k, (n, t) in enumerate(docs) if t.endswith("\n") and (tier == "thorough" or k % 7 == 0) and not n]
+    # (the slice is chosen by a hash of the text: TLC prints the documents in a different order on every run)
+    import zlib
+    extra = [(n, t[:-1]) for n, t in docs if t.endswith("\n") and not n and (tier == "thorough" or zlib.crc32(t.encode("utf-8")) % 7 == seed() % 7)]
     docs += extra
     res = impl.pmap(_parse, docs, procs=16, chunksize=100)
     traces, tdocs = [], []
